@@ -34,6 +34,8 @@ OutsOf(r) ==
          ELSE [i \in 1..Len(r.as) |-> Ident(r.as[i], r.name, r.group)])
     ELSE IF r.shape \in {"multi", "multierr"} THEN
         <<Ident(SlotType(r.slot), r.name, r.group), Ident(SlotType(r.slot2), NONE, r.group)>>
+    ELSE IF r.shape = "instv" THEN      \* an instance value that is not a pointer (type W, registered by value)
+        <<Ident("W", r.name, r.group)>>
     ELSE IF r.shape = "ifacerr" THEN    \* func(...) (I0, error): registered under the interface type itself
         <<Ident("I0", r.name, r.group)>>
     ELSE IF r.shape = "outkn" THEN      \* Out{A *Sa; B *Sb `name:"k"`}
@@ -204,7 +206,7 @@ Siblings(st, ids) == {i \in InstIds(st) : \E c \in ids \cap InstIds(st) :
 TransientIds(st, ids) == {i \in ids \cap InstIds(st) : st.inst[i].life = "transient"}
 
 DispOf(cfg, reg, out) == LET t == OutsOf(Reg(cfg, reg))[out].t IN
-                         IF t \in {"I0", "I1"} THEN SlotType(Reg(cfg, reg).slot) # "S3" ELSE t # "S3"
+                         IF t \in {"I0", "I1"} THEN SlotType(Reg(cfg, reg).slot) # "S3" ELSE t \notin {"S3", "W"}
 
 ApplyCall(st, e) ==
     LET base == [st EXCEPT !.cur = [op |-> e.op, sc |-> e.sc, name |-> e.name, t |-> e.t, k |-> e.k, g |-> e.g,
@@ -446,7 +448,7 @@ GuardsRetBuild(st, e) ==
      G("ok_build_closes_nothing", {"C10"}, ok => st.cur.ncl = 0, NONE),
      G("no_pending_transients", {"C03"}, ok => st.fresh = {}, NONE),
      G("singletons_all_constructed", {"C01"},
-        ok => \A id \in LiveRegIds(cfg) : (LifeOf(cfg, id) = "singleton" /\ Reg(cfg, id).shape # "inst") => st.runs[id] >= 1, NONE)}
+        ok => \A id \in LiveRegIds(cfg) : (LifeOf(cfg, id) = "singleton" /\ Reg(cfg, id).shape \notin {"inst", "instv"}) => st.runs[id] >= 1, NONE)}
 
 ExpectResolveErr(st, c) ==     \* the disposed verdict a resolve/create on scope c.sc must give, or NONE
     IF c.sc = "prov" THEN (IF ~c.provOpen THEN "providerDisposed" ELSE NONE)
